@@ -538,6 +538,12 @@ def run(ch, idx, tier):
                             seen_j[x] = rec
                         if part:
                             break
+                if part is None and len(vecs) >= 2:
+                    # a quantity with positive uncertainty that is left exactly unperturbed in every sample is not being drawn at all
+                    for j in range(len(vecs[0][1])):
+                        if all(vec[j] == 0 for _, vec in vecs):
+                            violations.append({"cls": "uncertain_quantity_never_perturbed", "site": site, "detail": {"component": j, "n_samples": len(vecs), "config": config}})
+                            break
                 if part is not None:
                     a, b, j, x = part
                     violations.append({"cls": "shared_perturbation_component", "site": site, "detail": {"samples": [a["sid"], b["sid"]], "pids": [a["pid"], b["pid"]], "component": j, "value": x, "config": config, "schedules": world.schedules}})
